@@ -42,6 +42,80 @@ CLAIMS = {
    technique="Rocq/Coq proof (measure, induction over schedules) + trace correspondence"),
 }
 
+
+CLAIMS.update({
+ "C09": dict(engine="ASModel",
+   text="Coq theorems over ASModel: no step of any thread reads or changes another thread's frames (what a thread does next depends only on its own "
+        "frame and the shared memory: there is no program point that waits for another thread), the re-read in `help` retries only when the control "
+        "word changed, the weak exchange fails only on change or spuriously (C05), the nested replacement load is wait-free (C08). " + TIE +
+        " Freeze sweeps suspend every other thread at every point of scenario programs and require the solo thread to finish its operation.",
+   note=NOTE + "Partial: the closed solo-completion bound B(number of nodes) is not yet one theorem; it is searched by the freeze sweeps (3000-step budget).",
+   technique="Rocq/Coq proof (frame-locality lemmas) + trace correspondence + solo-completion sweeps"),
+ "C11": dict(engine="ASModel",
+   text="Coq theorems over ASModel: the in_use word of a node changes only by COOLDOWN->UNUSED (never from USED), by the claiming compare-exchange "
+        "UNUSED->USED which in the same step makes the node the claimer's node, by pushing a fresh node as its creator's, and by start_cooldown of "
+        "its holder; no other step touches any in_use or any thread's node (exec_inuse); the holder's node assertion is stable under all other "
+        "threads' steps; sequential churn provably reuses one node (computed example). " + TIE + " Programs with thread join/exit/re-claim; node "
+        "count and in_use/writers words compared in the final state.",
+   note=NOTE + "Partial: the induction assembling 'at most one holder per node' (Inv.WF) over schedules is not finished. Known finding D7 (literal "
+        "bound <= peak live threads is false when a writer sits inside a cooling node) is listed in known_findings.txt and printed as KNOWN-FINDING. "
+        "Operations after TLS destruction (temporary LocalNode) are not modelled.",
+   technique="Rocq/Coq proof (ownership-transition lemmas) + trace correspondence"),
+ "C13": dict(engine="ASModel",
+   text="Coq theorems over ASModel, Owicki-Gries style, for every state, every scheduler choice, both debug settings and every value of the "
+        "generation counter: if the acting thread's node satisfies the assertion of its top frame (Inv.top_ok) its step does not panic - every "
+        "expect/assert/debug_assert/unreachable of the modelled code is a panic outcome - and establishes the next frame's assertion, including the "
+        "wrap step and the cooldown after it; assertions are stable under all other threads' steps (interference freedom); ownership and table "
+        "invariants are preserved; a concrete run through the wrap is computed in Coq. " + TIE + " Programs preset the counter 0-3 transactions "
+        "before the wrap (verif::set_generation), with and without helpers.",
+   note=NOTE + "Partial: the induction over schedules assembling the proved obligations into `no panic in any run` (Inv.WF) is not finished. "
+        "Arc counter overflow and allocation failure are out of scope.",
+   technique="Rocq/Coq proof (Owicki-Gries obligations: local correctness + interference freedom) + trace correspondence"),
+ "C16": dict(engine="ASModel",
+   text="Coq theorems over ASModel (local step theorems): Cache::load returns the cached value untouched when the stored pointer equals it and "
+        "otherwise performs exactly one load_full, releasing the previously cached value exactly once. " + TIE + " The oracle checks every "
+        "returned value against the write order (never unstored, never backwards, at least as new as any store completed before the call) on "
+        "1-3-preemption sweeps of a cache scenario and on generated cache programs.",
+   note=NOTE + "Partial: monotonicity/freshness over all schedules need the history invariant of C03 and a view model of the Relaxed comparison; "
+        "covered by the oracle only. MapCache is not modelled.",
+   technique="Rocq/Coq proof (step lemmas) + trace correspondence with a history oracle"),
+ "C18": dict(engine="ASModel",
+   text="Coq theorems over ASModel with a panicking rcu closure (panic on a chosen attempt, allocation on earlier ones): the unwind is exactly "
+        "the drop of the guard rcu holds, no step of it writes any container, the call reports the panic; a computed run shows container and "
+        "counts exact afterwards. " + TIE + " The harness closure really panics (catch_unwind), with guards held and concurrent writers.",
+   note=NOTE + "Partial: panicking pointee destructors/Clone and panicking projections are not modelled nor exercised (candidate D6 of DESIGN.md "
+        "is neither confirmed nor refuted).",
+   technique="Rocq/Coq proof (unwind lemmas) + trace correspondence with real panics"),
+ "C15": dict(engine="RefCntModel",
+   text="Coq theorems over Seq.RefCntModel (std Arc/Rc/Weak as a heap of (strong, weak, alive) cells whose primitives record every access; hand "
+        "transliteration of the six RefCnt impls, the default inc/dec and the sequential container skeleton), for every kind generated by "
+        "Arc|Rc|Weak|rc::Weak|Option<_> and every state: round trip preserves object and whole state (value equality for the flat kinds; nested "
+        "Option collapse stated explicitly), as_ptr = into_ptr, inc/dec = exactly +-1 of the kind's count with destruction exactly at strong 0, "
+        "empty cases <-> null with no cell touched, wf invariant and pointer distinctness, a container of Weak never affects a strong count. Tied "
+        "to /repo on every run by a three-way differential run (real trait methods/ArcSwapAny vs extracted model vs independent oracle).",
+   note="Theorems are about the model of std; transfer is by the differential run (10 kinds x 7 pointee layouts, count states in coverage). Layout "
+        "facts and the allocator are assumptions, sampled. Single-threaded. Trusted: Coq kernel, extraction (ExtrOcamlBasic only), harness/refcnt.",
+   technique="Rocq/Coq proof + extracted-model differential testing with an independent oracle"),
+ "C17": dict(engine="AccessModel",
+   text="Coq theorems over Seq/AccessModel.v (sequential, API-call granularity, any number of threads taking turns; src/access.rs and the hybrid "
+        "strategy's debt slots transliterated): an exact reference-count invariant for all client operation sequences; every projection guard "
+        "dereferences for its whole life to the chain's projections of the value stored at load time, its snapshot's count stays >= 1, one chain "
+        "load = one container load and a load after a completed store projects it, dynamic = static dispatch, Constant yields its own value. Tied "
+        "to /repo on every run by differential runs of the real access types (generated static/dyn chains, 3 strategies, 2 flavours, real threads) "
+        "compared row by row - atomic loads/swaps via the hook shim, all strong counts, every live guard's value - with the evaluated model.",
+   note="No preemption inside an API call (that is C01/C03/C10); one container; chains <= 4 wrappers + base projection in the harness (theorems: "
+        "any depth); Rc flavour of DirectDeref not exercised. Trusted: Coq kernel, harness/seqx, tools/runners/access.py.",
+   technique="Rocq/Coq proof (inductive invariant over client runs) + sequential differential correspondence"),
+ "C20": dict(engine="SerdeModel",
+   text="Coq theorems over Seq/SerdeModel.v (src/serde.rs transliterated over a plain-cell container; pointee serializer and format universally "
+        "quantified, round-trip contracts are hypotheses in the statement): serialize = tokens of the plain pointer holding the last stored value "
+        "incl. None with all counts unchanged, deserialize = from(deserialized pointer) with count exactly 1 and failing exactly when the pointer "
+        "type fails, round trip preserves value and tokens. Tied to /repo by differential runs (serde_json + token recorder, 6 pointee types, 2 "
+        "flavours, DefaultStrategy/RwLock/FillFastSlots) against the evaluated model and a direct oracle.",
+   note="Strategy independence is exercised, not proved (C14); serde's Arc/Option impls and data model are trusted; single-threaded.",
+   technique="Rocq/Coq proof + sequential differential correspondence"),
+})
+
 REASONS = {}
 
 def main():
@@ -54,6 +128,9 @@ def main():
          "engines": [
              {"name": "ASModel", "path": "/verif/coq", "serves_properties": sorted(k for k, v in CLAIMS.items() if v["engine"] == "ASModel"),
               "kind_free_text": "Coq 8.16 development: executable model of the crate (one atomic access per step) + theorems; extracted to OCaml for trace replay; harness/conc runs the real crate under a controlled scheduler"},
+             {"name": "RefCntModel", "path": "/verif/coq/Seq", "serves_properties": ["C15"], "kind_free_text": "Coq model of std Arc/Rc/Weak + the RefCnt impls; harness/refcnt differential run"},
+             {"name": "AccessModel", "path": "/verif/coq/Seq", "serves_properties": ["C17"], "kind_free_text": "Coq model of src/access.rs over a sequential store; harness/seqx differential run"},
+             {"name": "SerdeModel", "path": "/verif/coq/Seq", "serves_properties": ["C20"], "kind_free_text": "Coq model of src/serde.rs; harness/seqx differential run"},
          ],
          "checks": [], "not_applicable": [],
          "notes": "Fix commits in /repo: 45d9e22 (D4), bae028e (D5), d277032 (D2), 505454e (D1); see known_findings.txt and DESIGN.md §6."}
